@@ -5,6 +5,7 @@ go 1.26.8
 require (
 	github.com/anishathalye/porcupine v1.3.0
 	github.com/facebookincubator/tacquito v0.0.0
+	github.com/fsnotify/fsnotify v1.5.4
 	github.com/prometheus/client_golang v1.13.0
 	github.com/prometheus/client_model v0.2.0
 	gopkg.in/yaml.v3 v3.0.1
